@@ -77,7 +77,7 @@ def _pymin(a, b):
 
 
 def _pysign(a):
-    return (a > 0) - (a < 0)
+    return int(a > 0) - int(a < 0)      # (numpy scalars compare to numpy bools, which cannot be subtracted)
 
 
 _u_and = np.frompyfunc(lambda a, b: _and(_truth(a), _truth(b)), 2, 1)
